@@ -5,6 +5,10 @@ import os
 _FN = None
 
 
+class HarnessTimeout(Exception):
+    pass
+
+
 def _call(arg):
     return _FN(arg)
 
@@ -19,8 +23,15 @@ def pmap(fn, items, procs=None):
         return [fn(x) for x in items]
     _FN = fn
     ctx = mp.get_context('fork')
+    # safety net: a library call that never returns must not hang the check for ever (C08/C09 cap every call and
+    # name the input; elsewhere the stage is given up as undecided)
+    budget = float(os.environ.get('VERIF_MAP_TIMEOUT', '5400'))
     with ctx.Pool(procs) as pool:
-        return pool.map(_call, items, chunksize=1)
+        try:
+            return pool.map_async(_call, items, chunksize=1).get(timeout=budget)
+        except mp.TimeoutError:
+            pool.terminate()
+            raise HarnessTimeout('no result from the worker pool within %.0f s' % budget)
 
 
 def chunks(seq, n):
